@@ -751,6 +751,11 @@ class AbsInt:
                 iv = env.get('_%d' % e['index'], ('local', e['index']))
                 key = key + idx_token(iv)
                 val = env.get(key, ('index', val, iv))
+            elif isinstance(e, dict) and 'const_index' in e and not e.get('from_end'):
+                # a[k] with a constant k (slice / array patterns): same place as indexing with the constant
+                iv = ('int', e['const_index'], 'usize')
+                key = key + idx_token(iv)
+                val = env.get(key, ('index', val, iv))
             else:
                 key = key + '.?'
                 val = ('proj', val, repr(e))
@@ -775,6 +780,8 @@ class AbsInt:
             elif isinstance(e, dict) and 'index' in e:
                 iv = env.get('_%d' % e['index'], ('local', e['index']))
                 key = key + idx_token(iv)
+            elif isinstance(e, dict) and 'const_index' in e and not e.get('from_end'):
+                key = key + idx_token(('int', e['const_index'], 'usize'))
             else:
                 key = key + '.?'
         return key
